@@ -107,6 +107,9 @@ def handle_downlink_macs(c, res):
                     continue
                 if any(implied([x], ack) for (nm, ack, abb) in arm['acks']):
                     continue
+                fm = rules.flag_meaning(bf, x)
+                if fm is not None and fm[1] and all(y[0][0] == 'discr' and term_contains(y[0], lambda z: isinstance(z, tuple) and z[:1] == ('call',) and z[1].endswith('Peekable::peek')) for y in fm[1]):
+                    continue   # the same "last request of a block" test through a `matches!` flag
                 extra.append(x)
             res.require(not extra, 'C08:handle_downlink_macs:%s:%s-extra-guard' % (an, what),
                         '%s: a fully acknowledged request is not always applied (%s has an extra guard %s)' % (an, what, [(term_str(x[0]), x[1]) for x in extra]),
@@ -149,7 +152,7 @@ def handle_downlink_macs(c, res):
         ph = v[1][1][1]
         okd = True
         detail = []
-        for (dv, cs, dbb) in defs_with_conditions(bf, ph):
+        for (dv, cs) in rules.value_cases(bf, ('phi', ph)):
             detail.append(term_str(dv))
             if dv == ('agg', 'core::option::Option::None', ()):
                 continue
@@ -239,9 +242,44 @@ def handle_downlink_macs(c, res):
                         if tt[0] == 'Add' and tt[2] == ('const', 1) and arm_of(path_conditions(bf, dbb), is_cmd_discr) == var['LinkADRReq']:
                             n1 += 1
                 okc = n0 == 2 and n1 == 1 and len(dl) == 3
+        if not okc:
+            okc = _countdown_answers(bf, la, is_cmd_discr, var)
         res.require(okc, 'C08:handle_downlink_macs:LinkADRReq:answer-multiplicity', 'LinkADRAns copies are not counted per request', short_site(bf, la),
                     'SHAPE(for _ in 0..num_adrreq)', instance='LinkADRAns repeated num_adrreq times; counter +1 per request, reset after the block')
     res.coverage['arms'] = {k: {'acks': [a[0] for a in v['acks']], 'effects': len(v['effects']), 'answers': len(v['adds'])} for k, v in names.items()}
+
+
+def _countdown_answers(bf, la, is_cmd_discr, var):
+    """`while n > 0 { queue answer; n -= 1 }`: the answers are queued in a loop entered while the request counter is positive,
+    each round takes one off, the counter is +1 per LinkADRReq and starts at 0 (it is 0 again when the loop is left)"""
+    loops = bf.cfg.natural_loops()
+    inner = [h for h, bl in loops.items() if la in bl]
+    if not inner:
+        return False
+    h = min(inner, key=lambda x: len(loops[x]))
+    blks = loops[h]
+    conds = [x for x in path_conditions(bf, la) if x[0][0] in ('Gt', 'Ne', 'Lt') and cond_true(x)]
+    cnt = None
+    for x in conds:
+        a_, b_ = x[0][1], x[0][2]
+        if x[0][0] in ('Gt', 'Ne') and b_ == ('const', 0) and a_[:1] == ('phi',):
+            cnt = a_[1]
+        if x[0][0] == 'Lt' and a_ == ('const', 0) and b_[:1] == ('phi',):
+            cnt = b_[1]
+    if cnt is None:
+        return False
+    kinds = []
+    for v, cs, bb in defs_with_conditions(bf, cnt):
+        lin = rules.linear(v)
+        if v == ('const', 0):
+            kinds.append('zero' if bb not in blks else 'other')
+        elif lin == ({('phi', cnt): 1}, 1) and bb not in blks and arm_of(path_conditions(bf, bb), is_cmd_discr) == var['LinkADRReq']:
+            kinds.append('inc')
+        elif lin == ({('phi', cnt): 1}, -1) and bb in blks and bf.cfg.can_reach(la, bb):
+            kinds.append('dec')
+        else:
+            kinds.append('other')
+    return sorted(set(kinds)) == ['dec', 'inc', 'zero'] and kinds.count('inc') == 1 and kinds.count('dec') == 1
 
 
 def accumulate_rule(c, res, bf, is_cmd_discr, var):
@@ -278,7 +316,19 @@ def accumulate_rule(c, res, bf, is_cmd_discr, var):
     clears = [(v, cs, bb) for v, cs, bb in dl if v == ('const', 0)]
     arms = [(v, cs, bb) for v, cs, bb in dl if v == ('const', 1)]
     others = [(v, cs, bb) for v, cs, bb in dl if v not in (('const', 0), ('const', 1))]
-    okc = len(clears) >= 1 and all(bf.guarded_by_edges(bb, none_edges) for v, cs, bb in clears) and not others
+
+    def is_and_step(v):
+        # flag &= update(..).is_some(): the same accumulation without a branch
+        if not (isinstance(v, tuple) and v[0] == 'BitAnd'):
+            return False
+        x_, y_ = v[1], v[2]
+        if x_ != ('phi', flag):
+            x_, y_ = y_, x_
+        return x_ == ('phi', flag) and isinstance(y_, tuple) and y_[:1] == ('call',) and y_[1].endswith('Option::is_some') and \
+            term_contains(y_, lambda z: isinstance(z, tuple) and len(z) == 4 and z[0] == 'call' and z[3] == ubb)
+    steps = [o for o in others if is_and_step(o[0])]
+    others = [o for o in others if not is_and_step(o[0])]
+    okc = (len(clears) >= 1 or len(steps) >= 1) and all(bf.guarded_by_edges(bb, none_edges) for v, cs, bb in clears) and not others
     # re-arming: outside the loop, or in a block dominated by the queuing of the answers (the reset of the request counter)
     adds = [bb for bb, t in bf.calls() if callee_name(t).endswith('Uplink::add_mac_command') and rules.path_conditions(bf, bb) and
             any(is_cmd_discr(x[0]) and x[1] == (var['LinkADRReq'],) for x in rules.path_conditions(bf, bb))]
@@ -293,6 +343,11 @@ def accumulate_rule(c, res, bf, is_cmd_discr, var):
             ans_loop = [b2 for b2, t2 in bf.calls() if callee_name(t2).endswith('Iterator::next') and
                         any(is_cmd_discr(x[0]) and x[1] == (var['LinkADRReq'],) for x in rules.path_conditions(bf, b2)) and
                         term_contains(term_of_operand(bf, t2.args[0]), lambda y: isinstance(y, tuple) and y[:1] == ('agg',) and y[1].endswith('Range'))]
+            if not ans_loop and adds:
+                # a counting `while` instead of `for _ in 0..n`: the header of the innermost loop around the queuing of the answers
+                inner = [h_ for h_, bl_ in loops.items() if adds[0] in bl_ and h_ != outer]
+                if inner:
+                    ans_loop = [min(inner, key=lambda h_: len(loops[h_]))]
             if not ans_loop or bf.cfg.can_reach(ubb, bb, skip_nodes=ans_loop):
                 oka = False
     res.require(okc and oka and arms, key, 'the block-wide verdict flag is not accumulated correctly (clears under None: %s, re-armed only outside the block: %s, other definitions: %s)'
